@@ -310,6 +310,62 @@ func kernelCases(c *Ctx) {
 			}
 		}
 	}
+	// getCoeffsInline (hoisted reader state, inlined fastBit / fastSigned, bulk loads) on random data,
+	// probabilities, reader warm-up, block start and context: end-of-block, coefficients and the
+	// reader state afterwards vs the Go-reader model; end-of-block and coefficients vs the
+	// specification's token reader on the RFC decoder
+	for i := 0; i < n/2; i++ {
+		r := rng.Fork()
+		data := r.Bytes(r.Pick(24, 40, 64, 200))
+		if r.Intn(4) == 0 {
+			for k := range data {
+				data[k] = byte(r.Pick(0, 255, 128, r.Intn(256)))
+			}
+		}
+		if data[0] == 255 {
+			data[0] = 254 // no encoder output starts with 0xff: the coded value is below the initial range 255
+		}
+		var probs [8][3][11]uint8
+		flat := make([]byte, 0, 264)
+		mode := r.Intn(3)
+		for b := 0; b < 8; b++ {
+			for cx := 0; cx < 3; cx++ {
+				for k := 0; k < 11; k++ {
+					v := uint8(r.Intn(256))
+					switch mode {
+					case 1: // long blocks with large values: end-of-block and zero are unlikely
+						v = uint8(r.Pick(1, 3, 10, 40))
+					case 2:
+						v = uint8(r.Pick(0, 1, 128, 254, 255, r.Intn(256)))
+					}
+					probs[b][cx][k] = v
+					flat = append(flat, v)
+				}
+			}
+		}
+		warm := r.Bytes(r.Intn(12))
+		first, cx := r.Intn(2), r.Intn(3)
+		dq0, dq1 := r.Pick(4, 8, 50, 157, 314), r.Pick(4, 8, 60, 284, 440)
+		nz, out, val, rg, bits, eof := webp.VerifLossyGetCoeffs(data, warm, probs, cx, dq0, dq1, first)
+		if eof {
+			c.Count("kernel:getcoeffs-ran-out-of-data")
+			continue
+		}
+		cs := make([]string, 16)
+		for k := range cs {
+			cs[k] = fmt.Sprint(out[k])
+		}
+		wh := hex.EncodeToString(warm)
+		if wh == "" {
+			wh = "-"
+		}
+		args := fmt.Sprintf("%d %d %d %d %s %s %s", first, cx, dq0, dq1, hex.EncodeToString(data), hex.EncodeToString(flat), wh)
+		res := fmt.Sprintf("%d %s", nz, strings.Join(cs, ","))
+		c.D.Evaluations++
+		c.Count(fmt.Sprintf("kernel:getcoeffs-mode%d", mode))
+		addCase("coef "+args, fmt.Sprintf("%s v%d r%d b%d", res, val, rg, bits))
+		addCase("coefs "+args, res)
+	}
 	// boolean encoder (bitio.BoolWriter) vs the model, incl. sequences that force carries through
 	// runs of 0xff bytes; for PutBit/PutBitUniform-only sequences the model side also decodes
 	// the bytes with the RFC decoder ("rt-ok")
